@@ -297,7 +297,7 @@ impl Worker for W {
                 }
                 sg["cause"] = json!(if text.contains("UndefinedBinding(\"std.") || text.contains("Could not find type 'std.") {
                     "std-type-not-yet-bound-during-parallel-import"
-                } else if text.contains("exit scope above current") || text.contains("Expected extern") || text.contains("Expected closure state") {
+                } else if text.contains("exit scope above current") || text.contains("Expected extern") || text.contains("Expected closure state") || text.contains("did not belong to the current frame") {
                     "frame-stack-mismatch"
                 } else if text.contains("PoisonError") || text.contains("concurrent salsa query panicked") {
                     "collateral-of-a-panicked-thread"
